@@ -524,6 +524,8 @@ class SymEval:
                 a = self.ev(args[0], env)
                 if a[0] == "v":
                     return ("s", self.alg.atom("count[%r]" % a[1]))
+                if a[0] == "dims":
+                    return ("s", self.alg.atom("rank[%s]" % a[1]))
             if c == "core::option::Option::<T>::map" and len(args) == 2:
                 a = self.ev(args[0], env)
                 if a[0] == "opt" and a[1] is not None:
